@@ -197,7 +197,12 @@ U_C19(zz) ==
         "subsets", FALSE),
      V1(<<U1("a"), WithDesc(IntF("s", 2, FALSE, "default"), [kind |-> "auto", e |-> EBin("add", EF("a"), EC(1))]),
           WithDesc(U1("k"), [kind |-> "autolen", of |-> "r"]), [RepCountF("r", U1("e"), SzField("k"), NoCond, 0) EXCEPT !.dflt = <<IntV(1), IntV(2)>>]>>,
-        "subsets", FALSE)}
+        "subsets", FALSE),
+     \* a descriptor whose function SERIALISES another packet (a length / checksum over `pkt.b.pack()`), one level down: its
+     \* before-pack hook runs while the enclosing packet has already written bytes, so pack() is re-entered
+     VDecl([C0 |-> Class(DefaultOpts, <<WithDflt(U1("t"), 1), RefF("s", "C1"), U1("z")>>),
+            C1 |-> Class(DefaultOpts, <<WithDesc(U1("n"), [kind |-> "auto", e |-> EBin("add", EPackLen(EF("b")), EC(1))]), RefF("b", "C2")>>),
+            C2 |-> SubD], "subsets", 1, FALSE)}
 
 \* universes take a dummy parameter so that TLC does not evaluate all of them at start-up; a profile names the one it explores
 PickUV(n) ==
